@@ -261,7 +261,9 @@ class Continuous(AgentSchedulingComponent):
                 for gpu_idx,gpu_occ in enumerate(node['gpus'][loop_gpu_idx:],
                                                               loop_gpu_idx):
 
-                    if gpus_per_slot <= rpc.BUSY - gpu_occ:
+                    # skip blocked GPUs
+                    if  gpu_occ is not None and \
+                        gpus_per_slot <= rpc.BUSY - gpu_occ:
                         slot['gpus'].append(RO(index=gpu_idx,
                                                occupation=gpus_per_slot))
                         break
